@@ -1,12 +1,14 @@
 import Grol.Suite
 import Grol.Eval.Macro
+import Grol.Eval.MacroSpec
 /-
 Driver side of the `macro` correspondence suite (C13) and the executable statement of the
 property.  Line format: harness/cmd/harness/macro.go.
 
 The statement uses its OWN definition of "the template with every unquote(parameter) replaced by
-the argument's tree" (`specSubst`/`specExpand`, plain recursions over every child of every node),
-independent of the model's `modify`-based expansion.
+the argument's tree" (`handSubst`/`handExpand` of MacroSpec.lean, total structural recursions over
+every child of every node), independent of the model's `modify`-based expansion; that the model's
+expansion equals it on every program is the theorem `C13.expand_is_hand_substitution`.
 -/
 namespace Grol.MacroSuite
 open Grol.E Grol.Macro Grol.Wire
@@ -83,80 +85,18 @@ def declined : X Node → Option String
 
 /-! ### the specification side -/
 
-/-- all `unquote` nodes of the template are `unquote(p)` with `p` a parameter -/
-partial def paramOnly (ps : List String) : Node → Bool
-  | .builtin "UNQUOTE" [.ident p] => ps.contains p
-  | .builtin "UNQUOTE" _ => false
-  | .pre _ r => paramOnly ps r
-  | .inf _ l r => paramOnly ps l && paramOnly ps r
-  | .stmts l => l.all (paramOnly ps)
-  | .ifE c a b => paramOnly ps c && paramOnly ps a && paramOnly ps b
-  | .forE c b => paramOnly ps c && paramOnly ps b
-  | .ret v => paramOnly ps v
-  | .builtin _ l => l.all (paramOnly ps)
-  | .fn _ _ _ _ _ b => paramOnly ps b
-  | .call f as => paramOnly ps f && as.all (paramOnly ps)
-  | .arr els => els.all (paramOnly ps)
-  | .mapLit ks vs => ks.all (paramOnly ps) && vs.all (paramOnly ps)
-  | .idx _ l i => paramOnly ps l && paramOnly ps i
-  | .macroLit _ b => paramOnly ps b
-  | _ => true
+/-- all `unquote` nodes of the template are `unquote(p)` with `p` a parameter: the total function of
+MacroSpec.lean -/
+def paramOnly (ps : List String) (n : Node) : Bool := handParamOnly ps n
 
-/-- the template with every `unquote(p)` replaced by the tree bound to `p` -/
-partial def specSubst (env : List (String × Node)) : Node → Node
-  | .builtin "UNQUOTE" [.ident p] => (env.lookup p).getD .none
-  | .pre op r => .pre op (specSubst env r)
-  | .inf op l r => .inf op (specSubst env l) (specSubst env r)
-  | .stmts l => .stmts (l.map (specSubst env))
-  | .ifE c a b => .ifE (specSubst env c) (specSubst env a) (specSubst env b)
-  | .forE c b => .forE (specSubst env c) (specSubst env b)
-  | .ret v => .ret (specSubst env v)
-  | .builtin n ps => .builtin n (ps.map (specSubst env))
-  | .fn a b c d e body => .fn a b c d e (specSubst env body)
-  | .call f as => .call (specSubst env f) (as.map (specSubst env))
-  | .arr els => .arr (els.map (specSubst env))
-  | .mapLit ks vs => .mapLit (ks.map (specSubst env)) (vs.map (specSubst env))
-  | .idx t l i => .idx t (specSubst env l) (specSubst env i)
-  | .macroLit ps b => .macroLit ps (specSubst env b)
-  | n => n
-
-/-- a macro inside the property's quantifier: body = one `quote(T)`, distinct parameters, every unquote
-in `T` names a parameter -/
-def simpleTemplate (m : MacroDef) : Option Node :=
-  match m.body with
-  | .stmts [.builtin "QUOTE" [t]] =>
-    if m.params.eraseDups.length == m.params.length && !m.params.contains "info" && !m.params.contains "self" && paramOnly m.params t
-    then some t else none
-  | _ => none
+/-- the template with every `unquote(p)` replaced by the tree bound to `p`: `Grol.Macro.handSubst` -/
+def specSubst (env : List (String × Node)) (n : Node) : Node := handSubst env n
 
 /-- every macro call of the program replaced by its substituted template, arguments first.
-`none`: the program is outside the quantifier (a called macro is not simple, or the arity is wrong). -/
-partial def specExpand (store : Store) : Node → Option Node
-  | .pre op r => do pure (.pre op (← specExpand store r))
-  | .inf op l r => do pure (.inf op (← specExpand store l) (← specExpand store r))
-  | .stmts l => do pure (.stmts (← l.mapM (specExpand store)))
-  | .ifE c a b => do pure (.ifE (← specExpand store c) (← specExpand store a) (← specExpand store b))
-  | .forE c b => do pure (.forE (← specExpand store c) (← specExpand store b))
-  | .ret v => do pure (.ret (← specExpand store v))
-  | .builtin n ps => do pure (.builtin n (← ps.mapM (specExpand store)))
-  | .fn a b c d e body => do pure (.fn a b c d e (← specExpand store body))
-  | .arr els => do pure (.arr (← els.mapM (specExpand store)))
-  | .mapLit ks vs => do pure (.mapLit (← ks.mapM (specExpand store)) (← vs.mapM (specExpand store)))
-  | .idx t l i => do pure (.idx t (← specExpand store l) (← specExpand store i))
-  | .macroLit ps b => do pure (.macroLit ps (← specExpand store b))
-  | .call f as => do
-    let f' ← specExpand store f
-    let as' ← as.mapM (specExpand store)
-    match f' with
-    | .ident name =>
-      match store.lookup name with
-      | none => pure (.call f' as')
-      | some m =>
-        let t ← simpleTemplate m
-        if as'.length != m.params.length then none
-        else pure (specSubst (m.params.zip as') t)
-    | _ => pure (.call f' as')
-  | n => some n
+`none`: the program is outside the quantifier (a called macro is not simple, or the arity is wrong).
+This IS `Grol.Macro.handExpand` (MacroSpec.lean), the total function of the theorem
+`Grol.Macro.C13.expand_is_hand_substitution`: the model's ExpandMacros returns exactly this tree. -/
+def specExpand (store : Store) (n : Node) : Option Node := handExpand store n
 
 /-- definitions of the property's shape (`name = macro(…){…}` as a top-level statement) recorded, and removed -/
 def specDefine (store : Store) : Node → Store × Node
